@@ -52,6 +52,7 @@ WITNESSES = [
     {"kind": "tidy", "w": "F38", "src": '"""doc"""', "db": S.DBS[2], "flags": T, "params": None},
     {"kind": "tidy", "w": "F8b", "src": "os.x; import a\na\n", "db": "import os\n", "flags": T, "params": None},
     {"kind": "transform", "w": "F36", "src": "from ab.a import x as ab\nab\n", "db": "", "flags": T, "params": None, "tmap": [["ab", "p.q"]]},
+    {"kind": "tidy", "w": "F39", "src": "from a.b import os\nx = 1\nimport m\nm\nos\n", "db": "__mandatory_imports__=['import os']\n", "flags": T, "params": None},
     {"kind": "tidy", "w": "F16", "src": "import os.path\nprint(os.getcwd())\n", "db": "import os\n", "flags": T, "params": None},
     {"kind": "tidy", "w": "F34", "src": "from os import sep as b\ndef f():\n    return b\nfrom os import pardir as b\nprint(f())\n", "db": "", "flags": T, "params": None},
 ]
@@ -156,6 +157,21 @@ def is_F34(c, im):
     return any(isinstance(n, (ast.FunctionDef, ast.Lambda, ast.ClassDef)) for n in ast.walk(tree))
 
 
+def is_F39(c, im):
+    """a mandatory import whose local name a DIFFERENT import of another import block already binds is added
+    anyway (add_import only looks at the chosen block): it shadows the other import, which the next pass removes."""
+    if not (c.get("flags") or {}).get("add_mandatory", True):
+        return False
+    snaps = im.get("snaps") or []
+    if len(snaps) < 2:
+        return False
+    bound = [(f, a) for b in snaps[1]["blocks"] if b["k"] == "I" for f, a in b["imports"]]
+    for mf, ma in im.get("mandatory", []):
+        if ma != "*" and any(a.split(".")[0] == ma.split(".")[0] and f != mf for f, a in bound):
+            return True
+    return False
+
+
 def oracle(c, im):
     """-> list of (clause, detail)"""
     bad = []
@@ -190,6 +206,8 @@ def classify_known(c, im, clause):
     if c["kind"] in ("tidy", "cli") and clause == "fixed_point":
         if is_F16(c, im):
             return "F16"
+        if is_F39(c, im):
+            return "F39"
         if is_F34(c, im):
             return "F34"
     return None
@@ -224,7 +242,7 @@ def check_cases(ctx, cases):
 
 
 def run(ctx):
-    n = 400 if ctx.quick else 20000
+    n = int(os.environ.get("VERIF_N", 600 if ctx.quick else 20000))
     ctx.coverage["rule"] = ("layout-rich generated modules (docstring/comment prologues, `;` joins, trailing comments, imports after code, "
                             "imports sharing a line with other statements, prologue-only files, missing final newline, very long dotted "
                             "names) x 7 databases (unique / ambiguous / absent / dotted / alias entries, one or two mandatory imports incl. "
